@@ -1,4 +1,4 @@
-use rten::{NodeId, Value, ValueOrView};
+use rten::{NodeId, ValueOrView};
 use vc_onnxgen::grammar::*;
 use vc_onnxgen::*;
 fn main() {
@@ -7,21 +7,15 @@ fn main() {
     let gc: GraphCase = serde_json::from_value(v["case"]["graph"].clone()).unwrap();
     let built = gc.build(&Profile::general());
     let bytes = built.model.encode();
-    for cfg in [Config::Plain, Config::OptInferOn] {
-        let model = cfg.load(&bytes).unwrap();
-        println!("== {} ops {:?}", cfg.name(), op_multiset(&model));
-        let ids: Vec<NodeId> = built.inputs.iter().map(|(n, _)| node_id(&model, n).unwrap()).collect();
-        let outs: Vec<NodeId> = built.outputs.iter().map(|n| node_id(&model, n).unwrap()).collect();
-        let ins: Vec<(NodeId, ValueOrView)> = ids.iter().zip(&built.inputs).map(|(i, (_, v))| (*i, ValueOrView::from(v.to_value()))).collect();
-        let full = model.run(ins, &outs, None);
-        println!("full: {:?}", full.map(|v| v.iter().map(TVal::from_value).collect::<Vec<_>>()));
-        let ins: Vec<(NodeId, ValueOrView)> = ids.iter().zip(&built.inputs).map(|(i, (_, v))| (*i, ValueOrView::from(v.to_value()))).collect();
-        let leaves = model.partial_run(ins, &outs, None).unwrap();
-        for (id, v) in &leaves { println!("leaf {} = {:?}", model.verif_graph().node_name(*id), TVal::from_value(v)); }
-        let _ : Option<Value> = None;
-        println!("borrowed: {:?}", run_named(&model, &built.inputs, &built.outputs, None, None));
-        println!("v3 borrowed: {:?}", run_named(&model, &built.inputs, &["v3".to_string()], None, None));
-        let owned = vec![true; built.inputs.len()];
-        println!("v3 owned: {:?}", run_named(&model, &built.inputs, &["v3".to_string()], Some(&owned), None));
+    let model = Config::Plain.load(&bytes).unwrap();
+    let id = |n: &str| model.find_node(n).unwrap();
+    let in0 = built.inputs[0].1.to_value();
+    let v3 = run_named(&model, &built.inputs, &["v3".to_string()], None, None).unwrap()[0].to_value();
+    for (name, outs) in [("v4,v3", vec![id("v4"), id("v3")]), ("v4", vec![id("v4")]), ("v3", vec![id("v3")])] {
+        let mk = || -> Vec<(NodeId, ValueOrView)> { vec![(id("in0"), ValueOrView::from(in0.clone())), (id("v3"), ValueOrView::from(v3.clone()))] };
+        let r = vcore::catch(|| model.run(mk(), &outs, None).map(|v| v.len()).map_err(|e| e.to_string()));
+        println!("run outputs [{name}] with v3 supplied: {:?}", r.map_err(|p| format!("PANIC {} at {}", p.msg, p.loc())));
+        let r = vcore::catch(|| model.partial_run(mk(), &outs, None).map(|v| v.len()).map_err(|e| e.to_string()));
+        println!("partial_run outputs [{name}] with v3 supplied: {:?}", r.map_err(|p| format!("PANIC {} at {}", p.msg, p.loc())));
     }
 }
